@@ -125,9 +125,14 @@ def write_ods(path, sheets, f=None, raw_content=None, without_content=False):
     f = f or {}
     with zipfile.ZipFile(path, "w", zipfile.ZIP_DEFLATED) as archive:
         archive.writestr(zipfile.ZipInfo("mimetype"), "application/vnd.oasis.opendocument.spreadsheet")
+        def member(name):
+            info = zipfile.ZipInfo(name, date_time=(2020, 1, 1, 0, 0, 0))  # fixed time stamp: same bytes on every run
+            info.compress_type = zipfile.ZIP_DEFLATED
+            return info
+
         if not without_content:
-            archive.writestr("content.xml", raw_content if raw_content is not None else content_xml(sheets, f))
-        archive.writestr("META-INF/manifest.xml", '<?xml version="1.0"?><manifest:manifest xmlns:manifest="urn:oasis:names:tc:opendocument:xmlns:manifest:1.0"/>')
+            archive.writestr(member("content.xml"), raw_content if raw_content is not None else content_xml(sheets, f))
+        archive.writestr(member("META-INF/manifest.xml"), '<?xml version="1.0"?><manifest:manifest xmlns:manifest="urn:oasis:names:tc:opendocument:xmlns:manifest:1.0"/>')
 
 
 # ---- independent decoder (self-check of the producer) -----------------------------------------
